@@ -163,6 +163,29 @@ FAMILY = [
     ("usage_doc_complex", prod(arg("string", "Input file"), optional(arg("string", "Output file")),
                                sw("e", "execute", "Whether to execute"),
                                opt(None, "loglevel", "enum", "v", "The level")), "h"),
+    # round 3 audit: the state a *missing* error carries out of every combinator must be observable
+    # through parse().  A token consumed by an alternative that then fails must come back (sum
+    # continues with the right alternative on its ORIGINAL state and a missing + missing error
+    # carries the state of the RIGHT error): ["--add"] must be a leftover, never a silent success.
+    ("many_sum_products", many(sm(prod(usw(None, "add"), arg("string")), prod(usw(None, "del"), arg("string")))), ""),
+    ("optional_sum_flagprod_arg", optional(sm(prod(usw("a", "add"), arg("int")), arg("string"))), ""),
+    # ... the four overloads of combine_errors, each with a sink behind the optional so that a wrong
+    # kind (other reported as missing) or a wrong state changes a successful record
+    ("optional_sum_other_miss_sink", prod(optional(sm(arg("int"), usw(None, "flag"))), many(arg("string"))), ""),
+    ("optional_sum_miss_other_sink", prod(optional(sm(usw(None, "flag"), arg("int"))), many(arg("string"))), ""),
+    ("optional_sum_arg_arg", optional(sm(arg("int"), arg("enum"))), ""),
+    ("optional_sum_products_sink", prod(optional(sm(prod(arg("int"), arg("int")), prod(usw(None, "flag"), arg("int")))), many(arg("string"))), ""),
+    # ... sums nested in sums (the state of the innermost right error wins), under optional and many
+    ("optional_sum_nested_right", optional(sm(prod(usw(None, "add"), arg("int")),
+                                              sm(prod(usw(None, "del"), arg("int")), prod(usw(None, "mod"), arg("int"))))), ""),
+    ("many_sum_nested_left", many(sm(sm(prod(usw(None, "add"), arg("string")), prod(usw(None, "del"), arg("string"))),
+                                     prod(usw(None, "mod"), arg("string")))), ""),
+    # ... commands as an alternative of a sum (its missing error carries the sub-parser's state)
+    ("optional_sum_commands_sink", prod(optional(sm(usw(None, "zed"), commands(sw(None, "flag"), ("ca", arg("int"))))), many(arg("string"))), ""),
+    ("sum_commands_left_many", sm(commands(sw(None, "flag"), ("ca", arg("int"))), many(arg("string"))), ""),
+    # ... option values that look like flags / option names of the same parser
+    ("opt_then_switch", prod(opt(None, "opt", "string"), sw("f", "flag")), ""),
+    ("many_arg_opt_opt", prod(many(arg("string")), opt(None, "opt", "string"), opt(None, "zed", "string", "d")), ""),
     # definitions that are not well formed (constructor outcome only)
     ("bad_flag_names", flag("flag", "flag", "int", 1, 0), ""),
     ("bad_flag_values", flag(None, "flag", "int", 0, 0), ""),
@@ -450,6 +473,7 @@ def build():
 
 
 HEADER = """// GENERATED by /verif/gen/options_family.py - do not edit.
+#define C03_UNITS_INCLUDE_WRAP_HEADERS
 #include "c03_options.hpp"
 """
 
@@ -466,20 +490,13 @@ def emit(outdir, nparts):
     for s in shapes:
         parts[(s["id"] - 1) % nparts].append(s)
     files = []
+    LAYOUT.clear()
     for k, part in enumerate(parts):
         out = [HEADER]
         for s in part:
-            out.append("namespace s%d\n{" % s["id"])
-            for l in range(1, s["nlabels"] + 1):
-                out.append("FCPPT_RECORD_MAKE_LABEL(L%d);" % l)
-            for t in range(1, s["ntags"] + 1):
-                out.append("FCPPT_RECORD_MAKE_LABEL(T%d);" % t)
-            out.append("// %s" % s["name"])
-            for w in crefs(s["ast"], []):
-                out.append("inline auto const &cref_%d()\n{\n  static auto const object{%s};\n  return object;\n}" % (w["w"], to_cpp(w["sub"])))
-            out.append("inline auto make()\n{\n  return %s;\n}\n}" % to_cpp(s["ast"]))
-            out.append("void c03_run_shape_%d(c03::driver &_d)\n{\n  _d.run<%s>(%d, [] { return s%d::make(); });\n}\n" % (
-                s["id"], "true" if s["help"] else "false", s["id"], s["id"]))
+            first = sum(x.count("\n") + 1 for x in out) + 1
+            out += shape_unit(s)
+            LAYOUT[s["id"]] = (k, first, sum(x.count("\n") + 1 for x in out))
         f = os.path.join(outdir, "c03_shapes_%d.cpp" % k)
         write_if_changed(f, "\n".join(out))
         files.append(f)
@@ -500,6 +517,67 @@ def emit(outdir, nparts):
     write_if_changed(f, "\n".join(reg))
     files.append(f)
     return files, js
+
+
+WRAP_HEADERS = """#include <fcppt/make_cref.hpp>
+#include <fcppt/reference_impl.hpp>
+#include <fcppt/unique_ptr_impl.hpp>
+#include <fcppt/options/base.hpp>
+#include <fcppt/options/base_unique_ptr.hpp>
+#include <fcppt/options/make_base.hpp>
+#include <utility>"""
+
+
+def has_wrap(p):
+    if isinstance(p, dict):
+        return p.get("k") == "wrap" or any(has_wrap(v) for v in p.values())
+    if isinstance(p, list):
+        return any(has_wrap(v) for v in p)
+    return False
+
+
+def shape_unit(s):
+    """the C++ of one shape (namespace with labels, make(), run function)"""
+    out = ([WRAP_HEADERS] if has_wrap(s["ast"]) else []) + ["namespace s%d\n{" % s["id"]]
+    for l in range(1, s["nlabels"] + 1):
+        out.append("FCPPT_RECORD_MAKE_LABEL(L%d);" % l)
+    for t in range(1, s["ntags"] + 1):
+        out.append("FCPPT_RECORD_MAKE_LABEL(T%d);" % t)
+    out.append("// %s" % s["name"])
+    for w in crefs(s["ast"], []):
+        out.append("inline auto const &cref_%d()\n{\n  static auto const object{%s};\n  return object;\n}" % (w["w"], to_cpp(w["sub"])))
+    out.append("inline auto make()\n{\n  return %s;\n}\n}" % to_cpp(s["ast"]))
+    out.append("void c03_run_shape_%d(c03::driver &_d)\n{\n  _d.run<%s>(%d, [] { return s%d::make(); });\n}\n" % (
+        s["id"], "true" if s["help"] else "false", s["id"], s["id"]))
+    return out
+
+
+LAYOUT = {}     # shape id -> (unit number, first line, last line) of the units written by emit()
+
+
+def emit_reduced(outdir, nparts, k, exclude):
+    """unit k of emit() without the shapes in `exclude` (shapes the tree under test does not compile)"""
+    tokens, shapes = build()
+    out = [HEADER]
+    for s in shapes:
+        if (s["id"] - 1) % nparts == k and s["id"] not in exclude:
+            out += shape_unit(s)
+    f = os.path.join(outdir, "c03_reduced_%d.cpp" % k)
+    write_if_changed(f, "\n".join(out))
+    return f
+
+
+def emit_isolated(outdir, ids):
+    """one translation unit per shape (used when a unit of emit() does not compile against the tree
+    under test, to find the shapes that do not compile) -> {shape id: file}"""
+    tokens, shapes = build()
+    res = {}
+    for s in shapes:
+        if s["id"] in ids:
+            f = os.path.join(outdir, "c03_iso_%d.cpp" % s["id"])
+            write_if_changed(f, "\n".join([HEADER] + shape_unit(s)))
+            res[s["id"]] = f
+    return res
 
 
 def write_if_changed(path, text):
